@@ -167,6 +167,10 @@ impl Expansion<'_> {
             };
             let (impl_gens, _, where_clause) = gens.split_for_impl();
             let (_, ty_gens, _) = input_generics.split_for_impl();
+            // `Self` in the type's own bounds means the deriving type, not the tuple implemented for.
+            let self_ty = quote! { #input_ident #ty_gens };
+            let impl_gens = crate::utils::replace_self(&impl_gens, &self_ty);
+            let where_clause = crate::utils::replace_self(&where_clause, &self_ty);
 
             if conv.consider_fields_ty {
                 Either::Left(iter::once(&fields_tuple))
@@ -178,7 +182,6 @@ impl Expansion<'_> {
                 // `&` binds tighter than `+`, so a trait object with several bounds has to be
                 // parenthesized before a reference to it can be spelled.
                 // `Self` in a field type means the deriving type, not the tuple implemented for.
-                let self_ty = quote! { #input_ident #ty_gens };
                 let tys: Vec<_> = fields_tys
                     .validate_type(out_ty)?
                     .map(|ty| match ty {
